@@ -1181,6 +1181,67 @@ func c01Wrapper(s *source, e *emitter, rel, goName, lean string) {
 	e.printf("]\n\n")
 }
 
+
+// ---- typed forwards: which arguments reach doReq from a call site ------------------------------------------------
+
+const c01FwdDecl = `/-- a typed call: the parameters of the function it occurs in, the method called and its argument list (a function
+literal is written "<closure>") -/
+structure Fwd where
+  params : List String
+  method : String
+  args : List String
+  deriving DecidableEq, Repr
+
+`
+
+// c01Fwd emits, for a function, the LAST call in its body whose callee text starts with one of the prefixes (the
+// call it forwards to / the breaker call of a site) as a typed `Fwd`; exactly `want` such calls must exist.
+func c01Fwd(s *source, e *emitter, rel, goName, lean string, want int, prefixes ...string) {
+	fd := s.findFunc(rel, goName)
+	var params, args []string
+	method := "MISSING"
+	if fd == nil || fd.Body == nil {
+		e.errors = append(e.errors, fmt.Sprintf("function %s not found in %s", goName, rel))
+	} else {
+		if fd.Type.Params != nil {
+			for _, f := range fd.Type.Params.List {
+				for _, n := range f.Names {
+					params = append(params, n.Name)
+				}
+			}
+		}
+		found := 0
+		ast.Inspect(fd.Body, func(n ast.Node) bool {
+			c, ok := n.(*ast.CallExpr)
+			if !ok {
+				return true
+			}
+			fn := s.src(c.Fun)
+			for _, p := range prefixes {
+				if strings.HasPrefix(fn, p) {
+					found++
+					method = fn[strings.LastIndex(fn, ".")+1:]
+					args = nil
+					for _, a := range c.Args {
+						if _, isLit := a.(*ast.FuncLit); isLit {
+							args = append(args, "<closure>")
+						} else {
+							args = append(args, s.src(a))
+						}
+					}
+					break
+				}
+			}
+			return true
+		})
+		if found != want {
+			e.errors = append(e.errors, fmt.Sprintf("%s: %d forwarding calls (prefixes %v), expected %d", goName, found, prefixes, want))
+		}
+	}
+	e.printf("/-- the call `%s` (%s) forwards to -/\ndef %s : Fwd := ⟨%s, %s, %s⟩\n\n", goName, rel, lean, c01StrList(params),
+		leanString(method), c01StrList(args))
+}
+
 func init() {
 	register("C01", func(s *source, e *emitter) {
 		const gb = "core/breaker/googlebreaker.go"
@@ -1378,6 +1439,24 @@ func init() {
 		c01Prog(s, e, br, "loggedThrottle.allow", "progLoggedAllow", -1)
 		c01Prog(s, e, br, "promiseWithReason.Accept", "progPromiseAccept", -1)
 		c01Prog(s, e, br, "promiseWithReason.Reject", "progPromiseReject", -1)
+		// ---- typed forwards: entry point -> … -> doReq(req, fallback, acceptable), and the breaker call of every site
+		e.printf("%s", c01FwdDecl)
+		for _, fn := range []string{"Do", "DoCtx", "DoWithAcceptable", "DoWithAcceptableCtx", "DoWithFallback", "DoWithFallbackCtx",
+			"DoWithFallbackAcceptable", "DoWithFallbackAcceptableCtx"} {
+			c01Fwd(s, e, br, "circuitBreaker."+fn, "fwdCb"+fn, 1, "cb.")
+			c01Fwd(s, e, "core/breaker/breakers.go", fn, "fwdPkg"+fn, 1, "b.")
+		}
+		c01Fwd(s, e, rb, "breakerHook.ProcessHook", "siteCallRedisProcess", 1, "h.brk.")
+		c01Fwd(s, e, rb, "breakerHook.ProcessPipelineHook", "siteCallRedisPipeline", 1, "h.brk.")
+		c01Fwd(s, e, zc, "BreakerInterceptor", "siteCallZrpcClient", 1, "breaker.")
+		c01Fwd(s, e, zs, "UnaryBreakerInterceptor", "siteCallZrpcServerUnary", 1, "breaker.")
+		c01Fwd(s, e, zs, "StreamBreakerInterceptor", "siteCallZrpcServerStream", 1, "breaker.")
+		c01Fwd(s, e, sq, "commonSqlConn.ExecCtx", "siteCallSqlExec", 1, "db.brk.")
+		c01Fwd(s, e, sq, "commonSqlConn.PrepareCtx", "siteCallSqlPrepare", 1, "db.brk.")
+		c01Fwd(s, e, sq, "commonSqlConn.TransactCtx", "siteCallSqlTransact", 1, "db.brk.")
+		c01Fwd(s, e, sq, "commonSqlConn.queryRows", "siteCallSqlQueryRows", 1, "db.brk.")
+		c01Fwd(s, e, st, "statement.ExecCtx", "siteCallStmtExec", 1, "s.brk.")
+		c01Fwd(s, e, st, "statement.queryRows", "siteCallStmtQueryRows", 1, "s.brk.")
 		// breakers.go
 		const bs = "core/breaker/breakers.go"
 		e.shapeDef(s, bs, "GetBreaker", "getBreakerShape")
